@@ -877,7 +877,7 @@ impl RawAutomaton {
         let (transitions, markers) = RawAutomaton::filter_map_transitions(
             &transitions,
             |state| renaming.get(&state).copied(),
-            transitions.len() - self.final_states.len(),
+            renaming.len(),
             0,
         );
         Self {
